@@ -378,7 +378,15 @@ def k_pdu_stream(ctx, seed):
                   observed=repr(now)[:300], expected=repr(seen)[:300])
 
 
-def k_refused_unit(ctx, what, seed):
+PDU_MINIMAL = {"eof": 10, "finished": 2, "ack": 3, "metadata": 8, "nak": 9, "prompt": 2, "keep_alive": 5}
+
+
+def pdu_minimal(kind, large):
+    """Octets a directive's data field needs for its fixed fields (directive code included, CRC not)."""
+    return PDU_MINIMAL[kind] + (4 if large and kind in ("eof", "metadata", "keep_alive") else 0) + (8 if large and kind == "nak" else 0)
+
+
+def k_refused_unit(ctx, what, seed, spec=None):
     """Units that declare less than their reader needs (self-consistent, valid CRC, but too short for the timestamp / step id /
     directive fields the reader was told to expect): whether such a unit is refused must not depend on what follows it in the
     buffer - octets behind the declared end are not there to be borrowed."""
@@ -389,8 +397,8 @@ def k_refused_unit(ctx, what, seed):
     from spacepackets.ecss.pus_1_verification import Service1Tm, UnpackParams
     X = C.lib()
     r = random.Random(f"refused/{what}/{seed}")
-    case = {"k": "refused_unit", "what": what, "seed": seed}
-    ctx.case(f"refused_unit/{what}", seed, sample=case)
+    case = {"k": "refused_unit", "what": what, "seed": seed, "spec": spec}
+    ctx.case(f"refused_unit/{what}", (seed, json.dumps(spec, sort_keys=True)), sample=case)
     if what in ("tm_short_for_timestamp", "srv17_short_for_timestamp"):
         tsl = r.choice((7, 12, 16))
         have = r.randrange(0, tsl)                               # timestamp + source data octets really present: fewer than the reader's timestamp
@@ -419,10 +427,15 @@ def k_refused_unit(ctx, what, seed):
         u = R.assemble(cfg, 1, 0, body, segmeta=segmeta)
         dec = X.FileDataPdu.unpack if r.random() < 0.5 else X.PduFactory.from_raw
     else:                                                        # directive PDUs whose data field is shorter than the directive's fixed fields
-        kind = r.choice(("eof", "finished", "ack", "metadata", "nak", "prompt", "keep_alive"))
-        cfg = C.rand_cfg(r, crc=r.getrandbits(1))
-        minimal = {"eof": 10, "finished": 2, "ack": 3, "metadata": 8, "nak": 9, "prompt": 2, "keep_alive": 5}[kind] + (4 if cfg["large"] and kind in ("eof", "metadata", "keep_alive") else 0) + (8 if cfg["large"] and kind == "nak" else 0)
-        body = bytes([C.DIRECTIVE_CODE[kind]]) + rand_bytes(r, r.randrange(0, minimal - 1))
+        if spec:                                                 # enumerated: kind x CRC x file-size class x every too-short length
+            kind = spec["kind"]
+            cfg = C.rand_cfg(r, crc=spec["crc"], large=spec["large"])
+            extra = spec["extra"]
+        else:
+            kind = r.choice(("eof", "finished", "ack", "metadata", "nak", "prompt", "keep_alive"))
+            cfg = C.rand_cfg(r, crc=r.getrandbits(1))
+            extra = r.randrange(0, pdu_minimal(kind, cfg["large"]) - 1)
+        body = bytes([C.DIRECTIVE_CODE[kind]]) + rand_bytes(r, extra)
         u = R.assemble(cfg, 0, 0, body)
         dec = X.CLS[kind].unpack if r.random() < 0.5 else X.PduFactory.from_raw
         what = f"pdu_short_for_directive/{kind}"
@@ -435,7 +448,8 @@ def k_refused_unit(ctx, what, seed):
     if ok:
         return                                                   # accepted on its own: nothing to compare (the other monitors cover accepted units)
     if not isinstance(base, documented_errors()):
-        return
+        ctx.ev("refusal_independent_of_what_follows")
+        return ctx.fail("refusal_independent_of_what_follows", "undocumented_error_for_a_unit_too_short_for_its_fields", f"{what}/{exc_sig(base)}", case, unit=u, error=repr(base))
     other = reg()[r.choice(list(reg()))](r)[0]
     for cls in r.sample(SUFFIX_CLASSES, 6):
         sfx = make_suffix(r, cls, u, other)
@@ -471,6 +485,12 @@ def run(ctx):
     for j in range(ctx.n(300, 20_000)):
         for what in ("tm_short_for_timestamp", "srv17_short_for_timestamp", "srv1_short_for_fields", "tc_short_length_field", "pdu_short_for_directive", "fd_short_for_offset"):
             k_refused_unit(ctx, what, ctx.seed * 1_000_003 + ctx.shard[0] * 50_021 + j)
+    for kind in PDU_MINIMAL:
+        for crc in (0, 1):
+            for large in (0, 1):
+                for extra in range(0, pdu_minimal(kind, large) - 1):
+                    k_refused_unit(ctx, "pdu_short_for_directive", ctx.seed * 1_000_003 + extra, spec={"kind": kind, "crc": crc, "large": large, "extra": extra})
+    ctx.exhaustive.append("directive PDUs too short for their fixed fields: 7 kinds x CRC x file-size class x every length below the minimum")
     preps = 8 if ctx.quick else 300
     for kind in C.KINDS8:
         for crc in (0, 1):
